@@ -126,7 +126,7 @@ theorem loadLoop_entry (fix : Fix) (t now : Nat) (s : Store) (i : Nat) (hi : i <
               have her := eraseKey_append_single acc ⟨k, v, none⟩ hfresh
               simp only at her
               simp only [Res.bind_ok, Res.pre_ok, her, setDb_withDb s i _ _ his, loadedEntry, entryAllocs, hdt,
-                hnow', hfix, if_false, if_true, List.append_nil, List.nil_append, Res.pre_nil]
+                hnow', hfix, if_false, if_true, List.append_nil, List.nil_append, Res.pre_nil, lift_ok]
             · simp only [hfix, if_false]
               rw [loadTyped_encKV fix acc k v none hk hv hm hs hfresh rest]
               simp only [Res.bind_ok, Res.pre_ok, setDb_withDb s i _ _ his, loadedEntry, entryAllocs, hdt,
